@@ -237,6 +237,7 @@ class Machine:
         self.trace_funcs = set()
         self.overrides = list(DEFAULT_OVERRIDES)
         self.witness = {}
+        self._splits = {}
 
     def cur_tyenv(self):
         return self.frames[-1].tyenv if self.frames else {}
@@ -530,6 +531,9 @@ class Machine:
             return False
         if s == '()':
             return Agg('tuple', '()', [])
+        mo = re.match(r'^(?:[A-Za-z_:]*::)?(Option|Ordering|Sign|RoundingMode|FpCategory)(?:::<.*>)?::([A-Z][A-Za-z]*)$', s)
+        if mo and mo.group(1) in ENUM_VARIANTS and (mo.group(2) in ENUM_VARIANTS[mo.group(1)]):
+            return mk_enum(mo.group(1), mo.group(2))
         m = re.match(r'^([iu](?:8|16|32|64|128|size))::(MIN|MAX)$', s) or re.match(r'^core::num::<impl ([iu](?:8|16|32|64|128|size))>::(MIN|MAX)$', s)
         if m:
             lo, hi = INT_RANGE[m.group(1)]
@@ -715,10 +719,20 @@ class Machine:
                 return z3.If(x < 0, x + n, x)
             return z3.If(x > dhi, x - n, x)
         if dlo == 0 and slo is not None and slo >= 0:
-            q, r = self.fresh('cq'), self.fresh('cr')
-            self.assume(z3.And(x == q * n + r, r >= 0, r < n, q >= 0))
-            return r
+            return self.pow2_split(x, n.bit_length() - 1)[1]
         return (x - dlo) % n + dlo
+
+    def pow2_split(self, x, k):
+        """(q, r) with x == q*2^k + r, 0 <= r < 2^k, for a non-negative term x; ONE pair of fresh variables per (term, k) on a
+        path, so that `x as u32`, `x >> 32` and `x & 0xffffffff` of the same x share their quotient and remainder"""
+        key = (x.get_id(), k)
+        hit = self._splits.get(key)
+        if hit is not None and hit[0].eq(x):
+            return hit[1], hit[2]
+        q, r = self.fresh('pq'), self.fresh('pr')
+        self.assume(z3.And(x == q * 2 ** k + r, r >= 0, r < 2 ** k, q >= 0))
+        self._splits[key] = (x, q, r)
+        return q, r
 
     def binop(self, op, x, y, dest_ty, opnd_ty):
         if type(x).__name__ == 'FloatV' or type(y).__name__ == 'FloatV':
@@ -770,6 +784,8 @@ class Machine:
             b = mask.bit_length() - a                     # number of bits up to the highest set bit
             if mask != ((1 << b) - 1) << a:
                 raise Unsupported('BitAnd with non-contiguous mask %x' % mask)
+            if a == 0:
+                return self.pow2_split(v, b)[1]
             # v = hi*2^(a+b) + mid*2^a + lo ;  result = mid*2^a
             hi, mid, lo = self.fresh('bh'), self.fresh('bm'), self.fresh('bl')
             self.assume(z3.And(v == hi * 2 ** (a + b) + mid * 2 ** a + lo, lo >= 0, lo < 2 ** a, mid >= 0, mid < 2 ** b, hi >= 0))
@@ -779,9 +795,7 @@ class Machine:
         if op in ('Shr', 'ShrUnchecked') and not is_sym(y):
             if not is_sym(x):
                 return x >> y
-            q, r = self.fresh('shq'), self.fresh('shr')
-            self.assume(z3.And(x == q * 2 ** y + r, r >= 0, r < 2 ** y))
-            return q
+            return self.pow2_split(x, y)[0]
         if op in ('Shl', 'ShlUnchecked') and not is_sym(y):
             ity = self.int_ty_of(dest_ty)
             width = {'u8': 8, 'u16': 16, 'u32': 32, 'u64': 64, 'u128': 128, 'usize': 64}.get(ity)
